@@ -131,6 +131,7 @@ package ice
 // no pair, and never when it is TCP-passive (those are dialled, not paired).
 //@ func (*Agent).addRemoteCandidate
 //@   props C06 C18 C04
+//@   ensures C06 C04 a-failed-agent-released-everything-and-takes-no-late-remote-candidate: old(a.connectionState) == ConnectionStateFailed ==> !result && unchangedExcept()
 //@   requires C04 a-selection-exists-only-while-alive: a.getSelectedPair() != nil ==> a.connectionState != ConnectionStateFailed
 //@   ensures C04 stays-alive-and-keeps-its-selector: (old(a.connectionState) != ConnectionStateFailed ==> a.connectionState != ConnectionStateFailed) && a.selector == old(a.selector)
 //@   loop 2 invariant C04 stays-alive-and-keeps-its-selector: (old(a.connectionState) != ConnectionStateFailed ==> a.connectionState != ConnectionStateFailed) && a.selector == old(a.selector)
